@@ -38,7 +38,7 @@ META = dict(
     assumptions=["reals model IEEE doubles for the ASTM comparison; the C==Python claim is also decided with "
                  "fsub/fabs/fadd/fhalf uninterpreted and only the order of finite values assumed",
                  "clang -O0 IR of c_rain.c has the semantics of the shipped build of the same source"],
-    reach_required=["alternating", "full-cycle", "half-cycle-j2", "tie", "monotone", "remainder>=3", "repeated-value"],
+    reach_required=["alternating", "full-cycle", "half-cycle-j2", "tie", "monotone", "remainder>=3", "repeated-value", "wrapper"],
     trusted_base=["z3 5.1", "clang-14 front end", "vsym/llvmir.py interpreter + extern models", "CPython 3.12"],
 )
 
@@ -347,7 +347,89 @@ def _refine_int(xs):
     return r
 
 
-MODES = dict(real=path_real, euf=path_euf, meta=path_meta)
+def run_c_wrapper(variant, peaks, getoffsets):
+    """interpret the Python-facing wrapper `rainflow(self, args, kw)`: argument parsing, the
+    array conversion it requests, dimension checks, dispatch to rainflow1/2.
+    PyArray_FromAny is ADVERSARIAL: it returns the input array itself only when the requested
+    flags force a C-contiguous aligned float64 array; otherwise it returns what NumPy may return
+    then - a strided array (every second slot of its buffer holds an unrelated value)."""
+    ip = _ir(variant)
+    L = len(peaks)
+    llvmir.setup(ip, api_new=ip.api_new)
+    ip.steps = 0
+    ip.maxsteps = 50 * L * L + 4000
+
+    def mk(datavals):
+        arr = llvmir.Block("ndarray", shape=(L,), typenum=12, size=96)
+        data = llvmir.Block("arraydata", size=8 * len(datavals))
+        for i, p in enumerate(datavals):
+            data.mem[8 * i] = p
+        dims = llvmir.Block("dims", size=8)
+        dims.mem[0] = L
+        arr.mem[0] = 2
+        arr.mem[16] = (data, 0)
+        arr.mem[24] = 1
+        arr.mem[32] = (dims, 0)
+        arr.data = data
+        return arr
+    inp = mk(list(peaks))
+    rec = {}
+
+    def parse(ip_, args):
+        ip_.store(args[4], (inp, 0))
+        ip_.store(args[5], 1 if getoffsets else 0)
+        return 1
+
+    def descr(ip_, args):
+        b = llvmir.Block("descr", typenum=args[0], size=16)
+        b.mem[0] = 1
+        return (b, 0)
+
+    def fromany(ip_, args):
+        typenum = getattr(args[1][0], "typenum", None)
+        flags = args[4]
+        rec["typenum"], rec["flags"] = typenum, flags
+        if typenum == 12 and (flags & 0x1) and (flags & 0x100):
+            return args[0]
+        vals = []
+        for i, p in enumerate(peaks):
+            vals += [p, S.SymR(z3.Real("garbage%d" % i))]
+        return (mk(vals[:max(L, 1) * 2]), 0)
+    ip.hooks = {"PyArg_ParseTupleAndKeywords": parse, ("pyapi", cbuild.api_index("PyArray_DescrFromType")): descr,
+                ("pyapi", cbuild.api_index("PyArray_FromAny")): fromany, "PyErr_SetString": lambda ip_, a: None}
+    try:
+        res = ip.run("rainflow", [None, None, None])
+    finally:
+        ip.hooks = {}
+    if res is None or res[0] != "tuple":
+        raise llvmir.IRError("wrapper returned %r" % (res,))
+    return [llvmir.read_array(b) for b in res[1]], rec
+
+
+def path_wrapper(L):
+    xs = [z3.Real("x%d" % i) for i in range(L)]
+
+    def fn(eng):
+        S.set_engine(eng)
+        peaks = [S.SymR(x) for x in xs]
+        obls = []
+        for variant in ("asis", "twopass"):
+            for go in (True, False):
+                try:
+                    direct = run_c(variant, peaks, go)
+                    viaw, rec = run_c_wrapper(variant, peaks, go)
+                except (llvmir.IRError, llvmir.StepBudget) as ex:
+                    obls.append(E.Obl("C wrapper (%s): %s" % (variant, ex), False))
+                    continue
+                eng.tag("wrapper")
+                _rows_equal(obls, "wrapper(%s, getoffsets=%s) table == kernel on the caller's values" % (variant, go), viaw[0], direct[0], 3)
+                if go:
+                    _int_rows_equal(obls, "wrapper(%s) offsets == kernel" % variant, viaw[1], direct[1])
+        return obls
+    return fn, xs
+
+
+MODES = dict(real=path_real, euf=path_euf, meta=path_meta, wrapper=path_wrapper)
 
 
 def job(mode, L, roots=None, split_depth=None, budget_s=None):
@@ -394,6 +476,10 @@ def replay(payload):
             continue
         impls["C2-" + variant] = (np.array(r["rf2"], float).reshape(-1, 3), np.array(r["os2"], np.int64).reshape(-1, 2))
         impls["C1-" + variant] = (np.array(r["rf1"], float).reshape(-1, 3), None)
+        if "rf2s" in r:
+            impls["C2-%s on a strided view of the same values" % variant] = (np.array(r["rf2s"], float).reshape(-1, 3), np.array(r["os2s"], np.int64).reshape(-1, 2))
+            if not r.get("same_views", True):
+                problems.append("compiled C (%s): list / reversed-view input gives a different table than the contiguous array" % variant)
     for name, (rf, os_) in impls.items():
         rf = np.asarray(rf)
         if rf.shape != refrf.shape or not np.array_equal(rf, refrf):
@@ -427,10 +513,18 @@ def c_run(payload):
     p = np.array(payload["peaks"], float)
     rf2, os2 = m.rainflow(p, getoffsets=True)
     rf1 = m.rainflow(p)
-    return dict(rf2=rf2.tolist(), os2=os2.tolist(), rf1=rf1.tolist())
+    # the same values handed over as a non-contiguous view, a reversed view and a list
+    base = np.empty(2 * len(p))
+    base[::2] = p
+    base[1::2] = 1.0e6 + np.arange(len(p))
+    rf2s, os2s = m.rainflow(base[::2], getoffsets=True)
+    rf2r, os2r = m.rainflow(p[::-1][::-1], getoffsets=True)
+    rf2l, os2l = m.rainflow(list(p), getoffsets=True)
+    return dict(rf2=rf2.tolist(), os2=os2.tolist(), rf1=rf1.tolist(), rf2s=rf2s.tolist(), os2s=os2s.tolist(),
+                same_views=bool(np.array_equal(rf2r, rf2) and np.array_equal(rf2l, rf2) and np.array_equal(os2l, os2)))
 
 
-REPLAY = {"rainflow-real": replay, "rainflow-euf": replay, "rainflow-meta": replay}
+REPLAY = {"rainflow-real": replay, "rainflow-euf": replay, "rainflow-meta": replay, "rainflow-wrapper": replay}
 
 
 def selection_job():
@@ -466,6 +560,8 @@ def jobs(tier, seed):
             out.append(H.Job("euf-L%d-split" % L, job, "euf", L, None, 6, weight=4 ** L))
         else:
             out.append(H.Job("euf-L%d" % L, job, "euf", L, weight=4 ** L))
+    for L in range(2, 6 if q else 8):
+        out.append(H.Job("wrapper-L%d" % L, job, "wrapper", L, weight=3 ** L))
     for L in range(2, Lmeta + 1):
         if L >= 8:
             out.append(H.Job("meta-L%d-split" % L, job, "meta", L, None, 6, weight=3 ** L))
@@ -479,5 +575,5 @@ def extra_coverage(results):
     for r in results:
         for f in r.get("functions") or []:
             fns.add(f)
-    fns.add("pyyeti/rainflow/c_rain.c:rainflow1,rainflow2 (LLVM IR, variants: as-is, other macro setting)")
+    fns.add("pyyeti/rainflow/c_rain.c:rainflow1,rainflow2 and the Python-facing wrapper rainflow (LLVM IR, variants: as-is, other macro setting)")
     return dict(functions_encoded=sorted(fns))
